@@ -298,6 +298,7 @@ def generate_ising(
     agents = {}
     fg_mapping = defaultdict(lambda: [])
     var_mapping = defaultdict(lambda: [])
+    hosted_constraints = set()
     for (row, col) in grid_graph.nodes:
         agent = AgentDef(f"a_{row}_{col}")
         agents[agent.name] = agent
@@ -312,10 +313,14 @@ def generate_ising(
             fg_mapping[agent.name].append(f"cu_v_{row}_{col}")
             # Sort coordinate to make sure we build the name in the same order as when
             # creating the constraints:
-            (r1, c1), (r2, c2) = sorted([(row, col), (left, col)])
-            fg_mapping[agent.name].append(f"cb_v_{r1}_{c1}_v_{r2}_{c2}")
-            (r1, c1), (r2, c2) = sorted([(row, col), (row, down)])
-            fg_mapping[agent.name].append(f"cb_v_{r1}_{c1}_v_{r2}_{c2}")
+            # On a side of length 2 the 'left' (or 'down') neighbor of both nodes is
+            # the other node: that single constraint must only be hosted once.
+            for n1, n2 in [((row, col), (left, col)), ((row, col), (row, down))]:
+                (r1, c1), (r2, c2) = sorted([n1, n2])
+                c_name = f"cb_v_{r1}_{c1}_v_{r2}_{c2}"
+                if c_name not in hosted_constraints:
+                    hosted_constraints.add(c_name)
+                    fg_mapping[agent.name].append(c_name)
 
     name = f"Ising_{row_count}_{col_count}_{bin_range}_{un_range}"
     if no_agents:
